@@ -13,6 +13,7 @@ import (
 	"go/types"
 	"math/big"
 	"sort"
+	"strconv"
 	"strings"
 
 	"golang.org/x/tools/go/ssa"
@@ -567,9 +568,14 @@ func constTerm(c *ssa.Const) *Term {
 				r.SetString(c.Value.ExactString())
 			}
 		} else {
-			if _, ok := r.SetString(c.Value.ExactString()); !ok {
-				f, _ := constant.Float64Val(c.Value)
-				r.SetFloat64(f)
+			// a float constant reaches SSA either exactly (1/100) or already rounded to float64
+			// (5764607523034235/576460752303423488), depending on how it is written (parentheses, conversions):
+			// both denote the float64 0.01. Canonical form: the shortest decimal that round-trips.
+			f, _ := constant.Float64Val(c.Value)
+			if _, ok := r.SetString(strconv.FormatFloat(f, 'g', -1, 64)); !ok {
+				if _, ok := r.SetString(c.Value.ExactString()); !ok {
+					r.SetFloat64(f)
+				}
 			}
 		}
 		return tConstNum(r)
@@ -1419,6 +1425,9 @@ func (s *summarizer) blockEffects(b *ssa.BasicBlock, region int, guard *Term, em
 				sub.inlineEffects(region, guard, emit)
 				continue
 			}
+			if s.isLogCall(x) {
+				continue // diagnostic output is not part of any property
+			}
 			if s.isEffectCall(x) {
 				emit(Effect{"call", region, guard, []*Term{s.term(x)}, x.Pos()})
 			} else if region == -1 && s.isCheckCall(x) {
@@ -1607,6 +1616,16 @@ func (s *summarizer) isEffectCall(x *ssa.Call) bool {
 		return true
 	}
 	return false
+}
+
+// isLogCall: log.Print*/fmt.Print* (diagnostic output).
+func (s *summarizer) isLogCall(x *ssa.Call) bool {
+	g := x.Common().StaticCallee()
+	if g == nil || g.Blocks != nil {
+		return false
+	}
+	cls, _ := classifyExternal(g)
+	return cls == extLog
 }
 
 // isCheckCall: a call whose result is used but which can reject its input (validators, parsers, lookups that panic): it
